@@ -121,8 +121,11 @@ struct OpResult {
     uint32_t nalloc = 0;  // allocation requests made by the library inside the op
     uint32_t nfailed = 0; // of which failed by injection
     uint32_t outstanding = 0; // library allocations made in this op and still live at its return
+    uint32_t leaked = 0;      // ... and still live when all threads have ended and run their exit handlers (filled in at the end of the pass)
     uint32_t libc_static = 0; // non-reentrant libc facilities used by the call (bit index: g_libc_static_names)
     uint32_t double_free = 0; // blocks the library released a second time (the second free is not executed)
+    uint32_t heap_overrun = 0; // blocks of the library whose red zone was found overwritten (at free / realloc / end of call)
+    uint32_t heap_uaf = 0;     // blocks written to after the library released them (found at end of call), or re-used after release
     uint32_t wr_faults = 0, rd_faults = 0;
     std::vector<HCall> hcalls;
     std::vector<int> footprint; // indices into statics symbol table (solo pass only)
@@ -284,7 +287,9 @@ struct AllocRec {
     size_t size;
     uint32_t site;
     int task, op;
+    bool guarded = false; // followed by a red zone of HEAP_RZ pattern bytes
 };
+enum { HEAP_RZ = 64 };
 extern const char *g_libc_static_names[];
 extern std::vector<AllocRec> g_live; // library allocations currently outstanding
 extern std::vector<void *> g_freed;   // blocks released by the library in this pass and not handed out again since
